@@ -145,13 +145,13 @@ def _compare_sites(ctx: Ctx, c: Collector) -> None:
                             except KeyError:
                                 reach = True
                         if reach:
-                            path_reason = f"operand {T.show(o)[:60]} is an entry of {tname.replace('local:', '')}, which holds sums of delays along paths"
+                            path_reason = f"operand {T.show(o)[:60]} is an entry of {'a local table' if tname.startswith('local:') else tname}, which holds sums of delays along paths"
                             break
             key_table = ""
             for o in operands:
                 r = _table_ref(unalias(T.strip(o), s, fi))
                 if r is not None:
-                    key_table = r[0].replace("local:", "")
+                    key_table = "local path table" if r[0].startswith("local:") else r[0]
             construct = f"{what} on TieredInterval [{key_table or 'edge delays'}]"
             loc = ctx.loc(fi, e)
             if path_reason:
